@@ -463,6 +463,12 @@ def rule_a12(ctx):
                 if isinstance(n, ast.Assign) and norm(n.value) == 'substrate.tell()':
                     holds += 1
     ctx.ob('A12.origin', 'codec.ber.decoder', 'decoder holds tell() results in locals', holds >= 5, '%d sites' % holds, nontrivial=False)
+    rule_wrapper_read(ctx)
+
+def rule_wrapper_read(ctx):
+    """A12.cache: CachingStreamWrapper.read = cached part + raw part, the raw part remembered; peek = read + seek back;
+    the element mark is set at the start of every element."""
+    w = ctx.cls('codec.streaming.CachingStreamWrapper')
     # read(): served from the cache first, remainder from the raw stream and remembered
     rd = w.method('read')
 
@@ -483,11 +489,14 @@ def rule_a12(ctx):
         if isinstance(r_, ast.Return) and r_.value is not None:
             t = norm(r_.value)
             nd_ = cfg_rd.node_of.get(r_)
-            if t in ('%s or None' % cv, 'None') and nd_ is not None and known_at(cfg_rd, nd_, '%s is None' % rv, True):
+            if nd_ is not None and known_at(cfg_rd, nd_, '%s is None' % rv, True) and (
+                    t == '%s or None' % cv or (t == 'None' and known_at(cfg_rd, nd_, cv, False))):
                 continue        # the raw stream had nothing yet: what the cache held, or None ("nothing yet") when it held nothing
             rets.append(t)
     ok = remembered and bool(rets) and all(t in (cv, '%s + %s' % (cv, rv)) for t in rets) and ('%s + %s' % (cv, rv)) in rets
-    ctx.ob('A12.cache', rd, 'read = cached part + raw part, raw part remembered', ok, '')
+    ctx.ob('A12.cache', rd, 'read = cached part + raw part, raw part remembered', ok,
+           'returns %s: the octets already taken from the cache must be part of every answer (the cache position has moved past '
+           'them), also when the raw stream has nothing yet' % rets if not ok else '')
     pk = w.method('peek')
     src = norm(pk.node)
     ctx.ob('A12.cache', pk, 'peek = read + relative seek back by what was read',
